@@ -849,7 +849,15 @@ func RunLockset(p *Prog) *LFacts {
 				roots = append(roots, root{fn, heldSet{"latch:R": true}})
 			}
 		case rn.Obj().Exported():
-			roots = append(roots, root{fn, heldSet{}})
+			// assumption A1, continued: a method of Txn that works at the cursor — it reads
+			// Txn.cursor, takes no callback and does not latch by itself — is an accessor in all
+			// but its receiver type (Txn.Index(), a presence test at the cursor): it runs inside a
+			// callback the library invoked under the block latch
+			if rn.Obj().Name() == "Txn" && !L.mayLatch[fn] && !L.mayLatch[originOf(fn)] && readsCursorOnly(L.P, fn) {
+				roots = append(roots, root{fn, heldSet{"latch:R": true}})
+			} else {
+				roots = append(roots, root{fn, heldSet{}})
+			}
 		default:
 			// Value/Contains of the library's own Column implementations: accessor context
 			if iface != nil && (fn.Name() == "Value" || fn.Name() == "Contains") &&
@@ -868,6 +876,43 @@ func RunLockset(p *Prog) *LFacts {
 	}
 	L.NCtx = len(L.Ctxs)
 	return L
+}
+
+// readsCursorOnly: fn (and the library functions it calls directly) loads Txn.cursor, never stores
+// it, and fn has no function-typed parameter.
+func readsCursorOnly(p *Prog, fn *ssa.Function) bool {
+	for _, par := range fn.Params {
+		if _, isFn := par.Type().Underlying().(*types.Signature); isFn {
+			return false
+		}
+	}
+	reads, writes := false, false
+	seen := map[*ssa.Function]bool{}
+	var visit func(f *ssa.Function, depth int)
+	visit = func(f *ssa.Function, depth int) {
+		if f == nil || f.Blocks == nil || seen[f] || depth > 2 || !p.InLib(f) {
+			return
+		}
+		seen[f] = true
+		allInstrs(f, func(ins ssa.Instruction) {
+			if fa, ok := ins.(*ssa.FieldAddr); ok {
+				if fr, ok := fieldOf(fa); ok && fr.Struct == "column.Txn" && fr.Field == "cursor" {
+					if fieldAddrIsWrite(fa) {
+						writes = true
+					} else {
+						reads = true
+					}
+				}
+			}
+			if cc, _, _ := callCommon(ins); cc != nil {
+				if sc := cc.StaticCallee(); sc != nil {
+					visit(sc, depth+1)
+				}
+			}
+		})
+	}
+	visit(fn, 0)
+	return reads && !writes
 }
 
 // ReachAvoiding: can a context of function `target` (any env/held) be reached from any root
